@@ -18,15 +18,23 @@ package main
 //     JSON value) | garbage (bytes that are not JSON)
 
 import (
+	"bufio"
 	"encoding/json"
 	"fmt"
 	"io"
+	"math/big"
 	"net/http"
 	"net/http/httptest"
 	"net/url"
+	"os"
+	"os/exec"
+	"regexp"
+	"runtime/pprof"
 	"sort"
 	"strconv"
 	"strings"
+	"sync"
+	"syscall"
 	"time"
 
 	"github.com/bitcoin-sv/block-headers-service/bhserrors"
@@ -36,7 +44,10 @@ import (
 	"github.com/gin-gonic/gin"
 )
 
-func init() { register("C16", runC16) }
+func init() {
+	register("C16", runC16)
+	register("c16child", runC16Child)
+}
 
 const (
 	c16UserToken   = "c16usertoken0001c16usertoken0001"
@@ -52,6 +63,7 @@ type c16Piece struct {
 
 // c16Req is one concrete HTTP request.
 type c16Req struct {
+	Store  string // store shape the request is sent to ("" = base)
 	Method string
 	AuthOn bool   // which stack: auth enabled or disabled
 	Auth   string // Authorization header ("" = absent)
@@ -97,11 +109,23 @@ func (r *c16Req) encode() string {
 	if len(bs) == 0 {
 		bs = []string{`""`}
 	}
-	return strings.Join(parts, " ") + " " + strings.Join(bs, "+")
+	pre := ""
+	if r.Store != "" && r.Store != "base" {
+		pre = "@" + r.Store + " "
+	}
+	return pre + strings.Join(parts, " ") + " " + strings.Join(bs, "+")
 }
 
 func c16Decode(s string) (*c16Req, error) {
 	s = strings.TrimSpace(s)
+	store := "base"
+	if strings.HasPrefix(s, "@") {
+		i := strings.Index(s, " ")
+		if i < 0 {
+			return nil, fmt.Errorf("bad store tag in %q", s)
+		}
+		store, s = s[1:i], s[i+1:]
+	}
 	next := func() (string, error) {
 		s = strings.TrimLeft(s, " ")
 		p, err := strconv.QuotedPrefix(s)
@@ -119,7 +143,7 @@ func c16Decode(s string) (*c16Req, error) {
 		}
 		f[i] = v
 	}
-	r := &c16Req{Method: f[0], AuthOn: f[1] == "1", Auth: f[2], CT: f[3], Path: f[4], Query: f[5]}
+	r := &c16Req{Store: store, Method: f[0], AuthOn: f[1] == "1", Auth: f[2], CT: f[3], Path: f[4], Query: f[5]}
 	for {
 		v, err := next()
 		if err != nil {
@@ -148,17 +172,13 @@ func c16Decode(s string) (*c16Req, error) {
 
 // c16Fix is the fixture: two stacks with identical stores.
 type c16Fix struct {
+	shape   string
 	off, on *Stack
 	rows    []HeaderRow
 	hidx    map[string]int // header hash -> row index
 	midx    map[string]int // merkle root -> row index (first row having it)
 	env     string         // "st=<idx>:<parent idx or ->:<height>:<L|S|O>,..."
 	admin   string
-}
-
-type c16Plan struct {
-	parent int // index of the parent row; -1.. = unknown parent number
-	unk    int
 }
 
 func c16MerkleOf(i int) chainhash.Hash {
@@ -177,9 +197,49 @@ func c16UnknownParent(i int) chainhash.Hash {
 	return h
 }
 
-// c16Build adds the same headers to a stack: a longest chain of 5 on genesis, a stale branch of 2 forking at
-// height 2, a stale sibling of the first block, a stale sibling of the tip with EQUAL work, two orphan chains.
-func c16Build(s *Stack) error {
+// c16Shape is one store shape: for every added header its parent (row index; negative = unknown parent number)
+// and its bits.  Row 0 is genesis.
+type c16Shape struct {
+	name    string
+	parents []int
+	heavy   map[int]bool // rows (1-based position in parents + 0) mined with much more work than the others
+	what    string
+}
+
+const (
+	c16LightBits = 0x207fffff // work 2
+	c16HeavyBits = 0x1f7fffff // work ~2^9
+)
+
+func c16Shapes() []c16Shape {
+	return []c16Shape{
+		{name: "base", parents: []int{0, 1, 2, 3, 4 /*a1..a5*/, 2, 6 /*s3,s4*/, 0 /*t1*/, -1, 9 /*o1,o2*/, -2, 11 /*p1,p2*/, 4 /*e5*/},
+			what: "longest chain of 5, stale branch of 2 forking at height 2, stale sibling of block 1, equal-work stale sibling of the tip, two orphan chains of 2"},
+		{name: "tallstale", parents: []int{0, 1, 2 /*m1..m3 heavy*/, 0, 4, 5, 6, 7, 8 /*s1..s6 light*/}, heavy: map[int]bool{1: true, 2: true, 3: true},
+			what: "longest chain of 3 heavy headers, a light stale branch of 6 from genesis: stale headers ABOVE the tip in height, below it in work"},
+		{name: "tallorphan", parents: []int{0, 1 /*m1,m2*/, -1, 3, 4, 5, 6 /*o1..o5*/},
+			what: "longest chain of 2, an orphan chain (unknown parent) of 5: orphans above the tip in height"},
+		{name: "both", parents: []int{0, 1, 2 /*m1..m3 heavy*/, 0, 4, 5, 6, 7 /*s1..s5 light*/, -1, 9, 10, 11, 12, 13, 14 /*o1..o7*/, -2 /*p1*/, 3 /*m4 heavy*/},
+			heavy: map[int]bool{1: true, 2: true, 3: true, 17: true},
+			what: "longest chain of 4 heavy headers, light stale branch of 5, orphan chain of 7, a single orphan"},
+		{name: "genesis", parents: []int{}, what: "nothing beyond genesis"},
+	}
+}
+
+func c16ShapeByName(n string) (c16Shape, bool) {
+	if n == "" {
+		n = "base"
+	}
+	for _, sh := range c16Shapes() {
+		if sh.name == n {
+			return sh, true
+		}
+	}
+	return c16Shape{}, false
+}
+
+// c16Build adds the headers of a shape to a stack (deterministic: the same hashes in every process).
+func c16Build(s *Stack, sh c16Shape) error {
 	rows, err := s.DumpHeaders()
 	if err != nil {
 		return err
@@ -193,17 +253,19 @@ func c16Build(s *Stack) error {
 		return err
 	}
 	hashes = append(hashes, *gh)
-	// parent index per new row (row i+1); negative = unknown parent
-	parents := []int{0, 1, 2, 3, 4 /*a1..a5*/, 2, 6 /*s3,s4*/, 0 /*t1*/, -1, 9 /*o1,o2*/, -2, 11 /*p1,p2*/, 4 /*e5*/}
-	for i, p := range parents {
+	for i, p := range sh.parents {
 		var prev chainhash.Hash
 		if p >= 0 {
 			prev = hashes[p]
 		} else {
 			prev = c16UnknownParent(-p)
 		}
+		bits := uint32(c16LightBits)
+		if sh.heavy[i+1] {
+			bits = c16HeavyBits
+		}
 		src := domains.BlockHeaderSource{Version: 1, PrevBlock: prev, MerkleRoot: c16MerkleOf(i + 1),
-			Timestamp: time.Unix(int64(1700000000+600*i), 0), Bits: 0x207fffff, Nonce: uint32(1000 + i)}
+			Timestamp: time.Unix(int64(1700000000+600*i), 0), Bits: bits, Nonce: uint32(1000 + i)}
 		var h *domains.BlockHeader
 		var aerr error
 		func() {
@@ -215,7 +277,7 @@ func c16Build(s *Stack) error {
 			h, aerr = s.Services.Chains.Add(src)
 		}()
 		if aerr != nil || h == nil {
-			return fmt.Errorf("building the store: header %d: %v", i+1, aerr)
+			return fmt.Errorf("building the store %s: header %d: %v", sh.name, i+1, aerr)
 		}
 		hashes = append(hashes, h.Hash)
 	}
@@ -240,18 +302,18 @@ func (s *Stack) c16Restore(table string) {
 	_, _ = s.DB.Exec(`INSERT INTO ` + table + ` SELECT * FROM c16_` + table + `_base`)
 }
 
-func c16NewFix(c *Ctx) (*c16Fix, error) {
+func c16NewFix(c *Ctx, sh c16Shape) (*c16Fix, error) {
 	gin.DefaultErrorWriter = io.Discard
-	f := &c16Fix{hidx: map[string]int{}, midx: map[string]int{}, admin: config.DefaultAppToken}
+	f := &c16Fix{shape: sh.name, hidx: map[string]int{}, midx: map[string]int{}, admin: config.DefaultAppToken}
 	var err error
-	if f.off, err = NewStack(StackOpts{Dir: c.TmpDir("c16off"), UseAuth: false}); err != nil {
+	if f.off, err = NewStack(StackOpts{Dir: c.TmpDir("c16off-" + sh.name), UseAuth: false}); err != nil {
 		return nil, err
 	}
-	if f.on, err = NewStack(StackOpts{Dir: c.TmpDir("c16on"), UseAuth: true}); err != nil {
+	if f.on, err = NewStack(StackOpts{Dir: c.TmpDir("c16on-" + sh.name), UseAuth: true}); err != nil {
 		return nil, err
 	}
 	for _, s := range []*Stack{f.off, f.on} {
-		if err := c16Build(s); err != nil {
+		if err := c16Build(s, sh); err != nil {
 			return nil, err
 		}
 	}
@@ -452,35 +514,232 @@ func c16ErrCase(c *Ctx, code string) {
 	c.Count("route:errcode")
 }
 
-func runC16(c *Ctx) error {
-	if strings.HasPrefix(c.Only, "errcode ") {
-		c16ErrCase(c, strings.TrimPrefix(c.Only, "errcode "))
-		return nil
+// ---------------------------------------------------------------------------------------------------
+// dangerous requests (absurd numbers, huge bodies) are served by a CHILD process of this binary under an address
+// space limit, so that an allocation driven by the client's number can kill the child but never the harness.
+
+const c16ChildMemDefault = 4 << 30
+
+var c16BigNumber = big.NewInt(1000000)
+
+// c16Dangerous: some numeric class value is >= 10^6 in magnitude (8 MB if the server allocates that many words),
+// or the request carries more than 64 KiB.
+func c16Dangerous(class string, r *c16Req) bool {
+	for _, w := range strings.Fields(class) {
+		if j := strings.Index(w, "=n:"); j >= 0 {
+			if z, ok := new(big.Int).SetString(w[j+3:], 10); ok && new(big.Int).Abs(z).Cmp(c16BigNumber) >= 0 {
+				return true
+			}
+		}
 	}
-	f, err := c16NewFix(c)
+	n := len(r.Path) + len(r.Query)
+	for _, p := range r.Body {
+		n += len(p.S) * p.N
+	}
+	return n > 64<<10
+}
+
+// runC16Child: `harness c16child <dir> <shape>` - builds the store, then answers one encoded request per stdin line
+// with one observable line on stdout.
+func runC16Child(c *Ctx) error {
+	lim := uint64(c16ChildMemDefault)
+	if v, err := strconv.ParseUint(os.Getenv("VERIF_C16_CHILD_MEM"), 10, 64); err == nil && v > 0 {
+		lim = v
+	}
+	_ = syscall.Setrlimit(syscall.RLIMIT_AS, &syscall.Rlimit{Cur: lim, Max: lim})
+	name := "base"
+	if len(c.Args) > 0 {
+		name = c.Args[0]
+	}
+	sh, ok := c16ShapeByName(name)
+	if !ok {
+		return fmt.Errorf("unknown store shape %q", name)
+	}
+	f, err := c16NewFix(c, sh)
 	if err != nil {
 		return err
 	}
 	defer f.close()
-	// every API route of the engine must be known
-	for _, s := range []*Stack{f.off, f.on} {
-		for _, ri := range s.Engine.Routes() {
-			if !strings.HasPrefix(ri.Path, "/api/v1") {
-				continue
-			}
-			if _, ok := c16RouteNames[ri.Method+" "+ri.Path]; !ok {
-				return fmt.Errorf("route %s %s is registered in the engine but unknown to the C16 classifier - extend c16RouteNames, the classifier and the model", ri.Method, ri.Path)
-			}
+	out := bufio.NewWriter(os.Stdout)
+	fmt.Fprintln(out, "READY")
+	out.Flush()
+	sc := bufio.NewScanner(os.Stdin)
+	sc.Buffer(make([]byte, 1<<20), 1<<28)
+	for sc.Scan() {
+		r, err := c16Decode(sc.Text())
+		if err != nil {
+			fmt.Fprintln(out, "CHILD-BAD-REQUEST")
+		} else {
+			obs, _, _ := f.do(r)
+			fmt.Fprintln(out, obs)
+		}
+		out.Flush()
+	}
+	return nil
+}
+
+// c16Child is the parent's handle on one child process.
+type c16Child struct {
+	shape   string
+	dir     string
+	cmd     *exec.Cmd
+	in      io.WriteCloser
+	lines   chan string
+	starts  int
+	crashes int
+	pid     int
+}
+
+// a child that was killed or died cannot remove its own scratch databases (tmpfs = memory): the parent does
+func (ch *c16Child) sweep() {
+	if ch.pid > 0 {
+		_ = os.RemoveAll(fmt.Sprintf("/dev/shm/verif-%d", ch.pid))
+	}
+}
+
+func (ch *c16Child) start() error {
+	exe, err := os.Executable()
+	if err != nil {
+		return err
+	}
+	ch.starts++
+	cmd := exec.Command(exe, "c16child", fmt.Sprintf("%s-%d", ch.dir, ch.starts), ch.shape)
+	cmd.Env = os.Environ()
+	in, err := cmd.StdinPipe()
+	if err != nil {
+		return err
+	}
+	outp, err := cmd.StdoutPipe()
+	if err != nil {
+		return err
+	}
+	cmd.Stderr = nil
+	if err := cmd.Start(); err != nil {
+		return err
+	}
+	ch.pid = cmd.Process.Pid
+	lines := make(chan string, 4)
+	go func() {
+		sc := bufio.NewScanner(outp)
+		sc.Buffer(make([]byte, 1<<16), 1<<22)
+		for sc.Scan() {
+			lines <- sc.Text()
+		}
+		close(lines)
+	}()
+	ch.cmd, ch.in, ch.lines = cmd, in, lines
+	select {
+	case l, ok := <-lines:
+		if !ok || l != "READY" {
+			ch.kill()
+			return fmt.Errorf("child for store %s did not come up (%q)", ch.shape, l)
+		}
+	case <-time.After(120 * time.Second):
+		ch.kill()
+		return fmt.Errorf("child for store %s did not come up in time", ch.shape)
+	}
+	return nil
+}
+
+func (ch *c16Child) kill() {
+	if ch.cmd != nil {
+		_ = ch.in.Close()
+		_ = ch.cmd.Process.Kill()
+		_ = ch.cmd.Wait()
+		ch.cmd = nil
+		ch.sweep()
+	}
+}
+
+// exec serves one request in the child; a child that dies (or hangs) is the observable CRASH for this request.
+func (ch *c16Child) exec(r *c16Req) (string, error) {
+	if ch.cmd == nil {
+		if err := ch.start(); err != nil {
+			return "", err
 		}
 	}
-	covered := map[string]int{}
-	emit := func(r *c16Req, origin string) error {
-		cl, route, skip := f.classify(r)
-		if skip != "" {
-			c.Count("skipped:" + skip)
-			return nil
+	if _, err := io.WriteString(ch.in, r.encode()+"\n"); err != nil {
+		ch.kill()
+		ch.crashes++
+		return "CRASH server-died (pipe closed before the request)", nil
+	}
+	select {
+	case l, ok := <-ch.lines:
+		if ok {
+			return l, nil
 		}
-		obs, _, _ := f.do(r)
+		st := "?"
+		_ = ch.in.Close()
+		if err := ch.cmd.Wait(); err != nil {
+			st = strings.ReplaceAll(err.Error(), "\n", " ")
+		}
+		ch.cmd = nil
+		ch.sweep()
+		ch.crashes++
+		return "CRASH server-died (" + st + ")", nil
+	case <-time.After(90 * time.Second):
+		ch.kill()
+		ch.crashes++
+		return "CRASH server-hung (no answer within 90 s)", nil
+	}
+}
+
+// ---------------------------------------------------------------------------------------------------
+
+type c16Job struct {
+	r      *c16Req
+	origin string
+	want   string
+}
+
+type c16Out struct {
+	input, obs, route, origin, class string
+	skip                            string
+	danger                          bool
+}
+
+// c16RunStore serves the jobs of one store in order (dangerous ones through the child) and returns what to emit.
+func c16RunStore(c *Ctx, f *c16Fix, jobs []c16Job, childDir string) ([]c16Out, error) {
+	outs := make([]c16Out, 0, len(jobs))
+	ch := &c16Child{shape: f.shape, dir: childDir}
+	defer ch.kill()
+	var tChild, tLocal, tClass time.Duration
+	defer func() {
+		fmt.Fprintf(os.Stderr, "c16: store %s: classify %.1fs, in-process %.1fs, child %.1fs (%d child starts)\n", f.shape, tClass.Seconds(), tLocal.Seconds(), tChild.Seconds(), ch.starts)
+	}()
+	for _, j := range jobs {
+		j.r.Store = f.shape
+		tc := time.Now()
+		cl, route, skip := f.classify(j.r)
+		tClass += time.Since(tc)
+		if skip != "" {
+			outs = append(outs, c16Out{skip: skip})
+			continue
+		}
+		if j.want != "" && !strings.HasPrefix(cl, j.want) {
+			// sanity of the glue: the classifier must map a generated request back to the class it was generated for
+			return nil, fmt.Errorf("classifier disagrees with the generator: wanted prefix %q got %q for %s", j.want, cl, j.r.encode())
+		}
+		var obs string
+		danger := c16Dangerous(cl, j.r)
+		tq := time.Now()
+		if danger {
+			if ch.crashes >= 8 {
+				outs = append(outs, c16Out{skip: "dangerous-request-after-8-crashes"})
+				continue
+			}
+			var err error
+			if obs, err = ch.exec(j.r); err != nil {
+				return nil, err
+			}
+		} else {
+			obs, _, _ = f.do(j.r)
+		}
+		if danger {
+			tChild += time.Since(tq)
+		} else {
+			tLocal += time.Since(tq)
+		}
 		if route == "unrouted" {
 			// gin's own answers for unroutable paths are outside the model: only "no 5xx, nothing changed" is observed
 			st, _ := strconv.Atoi(strings.SplitN(obs, " ", 2)[0])
@@ -488,11 +747,62 @@ func runC16(c *Ctx) error {
 				obs = "gin-3xx-4xx eff=none"
 			}
 		}
-		c.Case(cl+" | "+f.env+" ## "+r.encode(), obs)
-		covered[route]++
-		c.Count("route:" + route)
-		c.Count("origin:" + origin)
-		c.Count("class:" + c16HistKey(cl))
+		outs = append(outs, c16Out{input: cl + " | " + f.env + " ## " + j.r.encode(), obs: obs, route: route, origin: j.origin, class: c16HistKey(cl), danger: danger})
+	}
+	return outs, nil
+}
+
+var c16ReLoosen = regexp.MustCompile(`k[0-9].*$`)
+
+func runC16(c *Ctx) error {
+	gin.SetMode(gin.ReleaseMode)
+	// safety net for the harness itself: an allocation gone wild ends this process, never the machine
+	plim := uint64(16 << 30)
+	if v, err := strconv.ParseUint(os.Getenv("VERIF_C16_PARENT_MEM"), 10, 64); err == nil {
+		plim = v
+	}
+	if plim > 0 {
+		_ = syscall.Setrlimit(syscall.RLIMIT_AS, &syscall.Rlimit{Cur: plim, Max: plim})
+	}
+	if pf := os.Getenv("VERIF_C16_PROF"); pf != "" {
+		if fh, err := os.Create(pf); err == nil {
+			_ = pprof.StartCPUProfile(fh)
+			defer pprof.StopCPUProfile()
+		}
+	}
+	if strings.HasPrefix(c.Only, "errcode ") {
+		c16ErrCase(c, strings.TrimPrefix(c.Only, "errcode "))
+		return nil
+	}
+	covered := map[string]int{}
+	emitAll := func(outs []c16Out) {
+		for _, o := range outs {
+			if o.skip != "" {
+				c.Count("skipped:" + o.skip)
+				continue
+			}
+			c.Case(o.input, o.obs)
+			covered[o.route]++
+			c.Count("route:" + o.route)
+			c.Count("origin:" + o.origin)
+			c.Count("class:" + o.class)
+			if o.danger {
+				c.Count("served-by:child-process")
+			}
+		}
+	}
+	checkRoutes := func(f *c16Fix) error {
+		// every API route of the engine must be known
+		for _, s := range []*Stack{f.off, f.on} {
+			for _, ri := range s.Engine.Routes() {
+				if !strings.HasPrefix(ri.Path, "/api/v1") {
+					continue
+				}
+				if _, ok := c16RouteNames[ri.Method+" "+ri.Path]; !ok {
+					return fmt.Errorf("route %s %s is registered in the engine but unknown to the C16 classifier - extend c16RouteNames, the classifier and the model", ri.Method, ri.Path)
+				}
+			}
+		}
 		return nil
 	}
 	if c.Only != "" {
@@ -504,14 +814,34 @@ func runC16(c *Ctx) error {
 		if err != nil {
 			return err
 		}
-		return emit(r, "replay")
+		sh, ok := c16ShapeByName(r.Store)
+		if !ok {
+			return fmt.Errorf("--only: unknown store shape %q", r.Store)
+		}
+		f, err := c16NewFix(c, sh)
+		if err != nil {
+			return err
+		}
+		defer f.close()
+		outs, err := c16RunStore(c, f, []c16Job{{r: r, origin: "replay"}}, c.TmpDir("c16child-"+sh.name))
+		if err != nil {
+			return err
+		}
+		emitAll(outs)
+		return nil
 	}
 	// the error table of the model against bhserrors (also the codes no request of this run reaches)
 	c16ErrCase(c, "error-unknown")
 	for _, x := range c16ErrTable {
 		c16ErrCase(c, x.GetCode())
 	}
-	// corpus first
+	// fixtures and job lists are made sequentially (all random choices in a fixed order), the stores are then
+	// served in parallel and their cases emitted in the fixed order of the shapes
+	tStart := time.Now()
+	shapes := c16Shapes()
+	fixes := make([]*c16Fix, len(shapes))
+	jobs := make([][]c16Job, len(shapes))
+	corpus := map[string][]c16Job{}
 	for _, line := range c16Corpus() {
 		i := strings.Index(line, " ## ")
 		if i < 0 {
@@ -521,27 +851,73 @@ func runC16(c *Ctx) error {
 		if err != nil {
 			return fmt.Errorf("corpus line %q: %v", line, err)
 		}
-		if err := emit(r, "corpus"); err != nil {
-			return err
+		if _, ok := c16ShapeByName(r.Store); !ok {
+			return fmt.Errorf("corpus line %q: unknown store shape", line)
 		}
+		corpus[r.Store] = append(corpus[r.Store], c16Job{r: r, origin: "corpus"})
 	}
-	g := &c16Gen{f: f, c: c}
-	for _, gr := range g.structured() {
-		if gr.want != "" {
-			// sanity of the glue: the classifier must map a generated request back to the class it was generated for
-			cl, _, skip := f.classify(gr.r)
-			if skip != "" || !strings.HasPrefix(cl, gr.want) {
-				return fmt.Errorf("classifier disagrees with the generator: wanted prefix %q got %q (skip %q) for %s", gr.want, cl, skip, gr.r.encode())
+	{
+		var wg sync.WaitGroup
+		ferrs := make([]error, len(shapes))
+		for si := range shapes {
+			wg.Add(1)
+			go func(si int) {
+				defer wg.Done()
+				fixes[si], ferrs[si] = c16NewFix(c, shapes[si])
+			}(si)
+		}
+		wg.Wait()
+		for si := range shapes {
+			if ferrs[si] != nil {
+				return ferrs[si]
 			}
-		}
-		if err := emit(gr.r, "structured"); err != nil {
-			return err
+			defer fixes[si].close()
 		}
 	}
-	for _, r := range g.mutated(c.Pick(1200, 20000)) {
-		if err := emit(r, "mutated"); err != nil {
+	for si, sh := range shapes {
+		f := fixes[si]
+		if err := checkRoutes(f); err != nil {
 			return err
 		}
+		jobs[si] = append(jobs[si], corpus[sh.name]...)
+		g := &c16Gen{f: f, c: c}
+		for _, gr := range g.structured() {
+			want := gr.want
+			if sh.name != "base" {
+				want = c16ReLoosen.ReplaceAllString(want, "") // fixed row numbers of the generator only fit the base store
+			}
+			jobs[si] = append(jobs[si], c16Job{r: gr.r, origin: "structured", want: want})
+		}
+		nm := c.Pick(1200, 20000)
+		if sh.name != "base" {
+			nm = c.Pick(300, 4000)
+		}
+		for _, r := range g.mutated(nm) {
+			jobs[si] = append(jobs[si], c16Job{r: r, origin: "mutated"})
+		}
+	}
+	results := make([][]c16Out, len(shapes))
+	errs := make([]error, len(shapes))
+	took := make([]time.Duration, len(shapes))
+	tGen := time.Since(tStart)
+	var wg sync.WaitGroup
+	for si := range shapes {
+		wg.Add(1)
+		go func(si int) {
+			defer wg.Done()
+			t0 := time.Now()
+			results[si], errs[si] = c16RunStore(c, fixes[si], jobs[si], c.Out+"/tmp/c16child-"+shapes[si].name)
+			took[si] = time.Since(t0)
+		}(si)
+	}
+	wg.Wait()
+	for si := range shapes {
+		if errs[si] != nil {
+			return errs[si]
+		}
+		emitAll(results[si])
+		c.Meta("store:"+shapes[si].name, shapes[si].what+"; "+fixes[si].env)
+		fmt.Fprintf(os.Stderr, "c16: store %s: %d jobs served in %.1fs (fixtures+generation %.1fs)\n", shapes[si].name, len(jobs[si]), took[si].Seconds(), tGen.Seconds())
 	}
 	names := []string{}
 	for _, n := range c16RouteNames {
@@ -553,8 +929,7 @@ func runC16(c *Ctx) error {
 	if len(names) > 0 {
 		return fmt.Errorf("routes without any case: %v", names)
 	}
-	c.Meta("routes_covered", fmt.Sprintf("%d of %d API routes of engine.Routes()", len(c16RouteNames), len(c16RouteNames)))
-	c.Meta("store", f.env)
+	c.Meta("routes_covered", fmt.Sprintf("%d of %d API routes of engine.Routes(), on each of %d store shapes", len(c16RouteNames), len(c16RouteNames), len(shapes)))
 	return nil
 }
 
